@@ -1,6 +1,7 @@
 /- Dispatch of the line protocol operations onto the executable models. -/
 import OlVerif.Json
 import OlVerif.Unparse.StrLit
+import OlVerif.Unparse.WFB
 import OlVerif.Lower.Stmt
 import OlVerif.Lower.Reject
 import OlVerif.Api.Model
@@ -34,7 +35,8 @@ def opUnparse (j : Json) : Json :=
   | .ok ej =>
     match exprOfJson ej with
     | .error e => errJ e
-    | .ok e => Json.mkObj [("toks", toksToJson (unparseTop e))]
+    -- `wf`: the hypothesis of C03.unparse_derives, evaluated on this tree
+    | .ok e => Json.mkObj [("toks", toksToJson (unparseTop e)), ("wf", .bool (wfEB e))]
 
 def opEscape (j : Json) : Json :=
   match j.getObjVal? "s", j.getObjVal? "q" with
